@@ -337,6 +337,9 @@ func (e *Engine) runPath(h *ssa.Function, prefix []int64, wk *Worker, opts Explo
 		harness: h.Name(), vector: opts.Vector, schedChoice: opts.SchedChoice,
 	}
 	r.maxPreempt = e.bounds["P"]
+	if e.bounds["race"] == 1 {
+		r.race = raceState{on: true, slots: map[slotKey]*slotState{}, syncVC: map[interface{}]VC{}, found: map[string]bool{}}
+	}
 	solver.ctx.Reset()
 	solver.BeginPath()
 	defer solver.EndPath()
@@ -404,6 +407,9 @@ func (e *Engine) runPath(h *ssa.Function, prefix []int64, wk *Worker, opts Explo
 		r.reportEnd("panic", main.panic.p.msg+"\n"+main.panic.stack)
 	} else {
 		pr.Outcome = "normal"
+	}
+	if len(pr.Races) > 0 {
+		r.violation(r.harness+".race", "race", strings.Join(pr.Races, "\n"), r.ctx.Bool(false))
 	}
 	if len(pr.Sample) == 0 {
 		pr.Sample = r.sampleString()
